@@ -52,15 +52,17 @@ Lemma zoomed_keeps_value_and_coordinate {B} (zero : B) (arr : arr2d B) H W b y0 
   zoom_region (snd arr) = Ok (y0, y1, x0, x1) -> sy <> 0%R -> sx <> 0%R ->
   let h := (y1 - y0) + 2 * b in let w := (x1 - x0) + 2 * b in
   0 <= h -> 0 <= w ->
-  exists e g', zoomed_around_mask zero arr b = Ok e /\
-    @zoomed_geometry ROps (snd arr) (sy, sx, oy, ox) b = Ok ((h, w), g') /\ rectb h w e = true /\
+  exists e cy cx, zoomed_around_mask zero arr b = Ok e /\
+    @mask_centre ROps (snd arr) (sy, sx, oy, ox) = Ok (cy, cx) /\
+    @zoomed_geometry ROps (snd arr) (sy, sx, oy, ox) b = Ok ((h, w), (sy, sx, cy, cx)) /\ rectb h w e = true /\
     forall i j, 0 <= i < h -> 0 <= j < w ->
       (forall d, zget2 d e i j = ext_get zero (fst arr) (y0 - b + i) (x0 - b + j)) /\
-      @pixel_centre_spec ROps h w g' i j = @pixel_centre_spec ROps H W (sy, sx, oy, ox) (y0 - b + i) (x0 - b + j).
+      @pixel_centre_spec ROps h w (sy, sx, cy, cx) i j = @pixel_centre_spec ROps H W (sy, sx, oy, ox) (y0 - b + i) (x0 - b + j).
 Proof.
   intros HA HM HP EZ Hy Hx h w N0 N1.
   pose proof (Entries_self true _ _ _ HM HP) as XM. destruct (Entries_shape _ _ _ _ XM HP) as [S0 S1].
-  eexists _, _. split; [apply (zoom_is_window zero arr H W b y0 y1 x0 x1 HA HP EZ N0 N1)|].
+  eexists _, _, _. split; [apply (zoom_is_window zero arr H W b y0 y1 x0 x1 HA HP EZ N0 N1)|].
+  split; [rewrite (mask_centre_region (snd arr) sy sx oy ox y0 y1 x0 x1 EZ Hy Hx); f_equal; apply surjective_pairing|].
   split; [apply (zoomed_geometry_region (snd arr) sy sx oy ox y0 y1 x0 x1 EZ Hy Hx b N0 N1)|].
   pose proof (window_spec_entries zero (fst arr) H W (y0 - b) (x0 - b) h w HA HP N0 N1) as (_ & _ & RW & GW).
   split; [apply Rect_rectb; assumption|].
